@@ -19,6 +19,7 @@ import (
 	"sort"
 	"sync"
 	"sync/atomic"
+	"time"
 
 	"github.com/pinealctx/neptune/cache"
 	"github.com/pinealctx/neptune/cache/tiny"
@@ -119,6 +120,55 @@ func (k key) routeRec(op string) tr.E { return tr.E{"t": k.t, "b": k.id} }
 
 func (k key) mapRec() tr.E { return tr.E{"t": k.t, "b": k.id} }
 
+// ---------------------------------------------------------------- watchdog
+// A call into the code under test that never returns (a leaked lock, a spin) is an observation, not a
+// harness failure: every call ticks `progress`; when nothing ticked for `stallAfter` the watchdog
+// writes a `stuck` event into the trace being written (the goroutine that owns the writer is the one
+// that hangs), flushes everything and ends the process normally.  The trace spec rejects `stuck`.
+// (The sleeping watchdog also keeps Go's "all goroutines are asleep" detector from ending the run.)
+var (
+	progress   int64
+	curW       atomic.Value // *tr.W being written
+	allW       []*tr.W
+	pendReset  atomic.Value // tr.E: reset event of a round whose events are not written yet
+	stallAfter = 20 * time.Second
+)
+
+func tick() { atomic.AddInt64(&progress, 1) }
+
+func openTrace(path string) *tr.W {
+	w := tr.Create(path)
+	allW = append(allW, w)
+	curW.Store(w)
+	return w
+}
+
+func watchdog() {
+	last, since := int64(-1), time.Now()
+	for {
+		time.Sleep(250 * time.Millisecond)
+		p := atomic.LoadInt64(&progress)
+		if p != last {
+			last, since = p, time.Now()
+			continue
+		}
+		if time.Since(since) < stallAfter {
+			continue
+		}
+		if w, ok := curW.Load().(*tr.W); ok && w != nil {
+			if e, ok := pendReset.Load().(tr.E); ok && e != nil {
+				w.Emit(e)
+			}
+			w.Emit(tr.E{"ev": "stuck", "note": "a call into the code under test did not return"})
+		}
+		for _, w := range allW {
+			w.Close()
+		}
+		fmt.Println("stuck=1")
+		os.Exit(0)
+	}
+}
+
 // ---------------------------------------------------------------- routing observations
 
 const panicIdx = -1000000
@@ -150,23 +200,90 @@ func hashOf(k key) (h uint64, ok bool) {
 }
 
 type router struct {
-	w      *tr.W
-	n      int
-	rm     *remap.ReMap
-	rng    *rand.Rand
-	events int
+	w       *tr.W
+	n       int
+	rm      *remap.ReMap
+	rng     *rand.Rand
+	events  int
+	scratch []byte // one input buffer reused across calls, as a caller decoding from a stream would
+}
+
+// reuse hands every other []byte key over inside the shared scratch buffer (spare capacity behind it)
+func (r *router) reuse(k key) key {
+	b, ok := k.v.([]byte)
+	if !ok || b == nil || r.rng.Intn(2) == 0 {
+		return k
+	}
+	if r.scratch == nil {
+		r.scratch = make([]byte, 256)
+	}
+	if len(b) > len(r.scratch)/2 {
+		return k
+	}
+	buf := r.scratch[:len(b)]
+	copy(buf, b)
+	k.v = buf
+	return k
+}
+
+// newReMap builds a router; n = 0 means "no option" (the default prime).  A panic in the constructor
+// is an observation: the caller logs it (numbs = -1 in the reset event, which the spec rejects).
+func newReMap(n int) (rm *remap.ReMap, numbs int, note string) {
+	defer func() {
+		if p := recover(); p != nil {
+			rm, numbs, note = nil, -1, fmt.Sprintf("panic in NewReMap: %v", p)
+		}
+	}()
+	if n == 0 {
+		rm = remap.NewReMap()
+	} else {
+		rm = remap.NewReMap(remap.WithPrime(uint64(n)))
+	}
+	return rm, clampIdx(int(rm.Numbs())), ""
 }
 
 func (r *router) inst() *remap.ReMap {
 	// stability also across instances of the same shard count
 	if r.rng.Intn(4) == 0 {
-		return remap.NewReMap(remap.WithPrime(uint64(r.n)))
+		if rm, _, _ := newReMap(r.n); rm != nil {
+			return rm
+		}
 	}
 	return r.rm
 }
 
-func (r *router) emit(op string, krec tr.E, h uint64, i int, note string) {
-	e := tr.E{"ev": "idx", "a": tr.E{"op": op, "k": krec, "h": tr.Limbs(h)}, "r": i}
+func idxEvent(op string, krec tr.E, h uint64, i int, inmut bool, note string) tr.E {
+	e := tr.E{"ev": "idx", "a": tr.E{"op": op, "k": krec, "h": tr.Limbs(h)}, "r": i, "inmut": inmut}
+	if note != "" {
+		e["note"] = note
+	}
+	return e
+}
+
+// guardInput keeps a private copy of a []byte key; the returned function tells whether the slice the
+// harness handed to the router still holds what it held (routing has no business writing to it).
+func guardInput(k key) func() bool {
+	b, ok := k.v.([]byte)
+	if !ok {
+		return func() bool { return true }
+	}
+	cp := append([]byte{}, b...)
+	return func() bool {
+		if len(b) != len(cp) {
+			return false
+		}
+		for i := range b {
+			if b[i] != cp[i] {
+				return false
+			}
+		}
+		return true
+	}
+}
+
+func (r *router) emit(op string, krec tr.E, h uint64, i int, inmut bool, note string) {
+	tick()
+	e := tr.E{"ev": "idx", "a": tr.E{"op": op, "k": krec, "h": tr.Limbs(h)}, "r": i, "inmut": inmut}
 	if note != "" {
 		e["note"] = note
 	}
@@ -177,11 +294,13 @@ func (r *router) emit(op string, krec tr.E, h uint64, i int, note string) {
 func (r *router) search(x uint64) {
 	rm := r.inst()
 	i, note := index(func() int { return rm.SearchIndex(x) })
-	r.emit("search", tr.E{"t": "hash", "b": tr.Limbs(x)}, x, i, note)
+	r.emit("search", tr.E{"t": "hash", "b": tr.Limbs(x)}, x, i, true, note)
 }
 
 func (r *router) simple(k key) {
 	rm := r.inst()
+	k = r.reuse(k)
+	same := guardInput(k)
 	var h uint64
 	if k.mod {
 		h = k.u
@@ -190,12 +309,12 @@ func (r *router) simple(k key) {
 		if h, ok = hashOf(k); !ok {
 			// every key the harness draws is of a type the routing is documented to take: a panic
 			// here is an observation of the code under test, not a harness fault
-			r.emit("simple", k.routeRec("simple"), 0, panicIdx, "panic in XXHash")
+			r.emit("simple", k.routeRec("simple"), 0, panicIdx, true, "panic in XXHash")
 			return
 		}
 	}
 	i, note := index(func() int { return rm.SimpleIndex(k.v) })
-	r.emit("simple", k.routeRec("simple"), h, i, note)
+	r.emit("simple", k.routeRec("simple"), h, i, same(), note)
 }
 
 func (r *router) xhash(k key) {
@@ -203,13 +322,15 @@ func (r *router) xhash(k key) {
 		return // HitGroup-only keys are not supported by the hash route
 	}
 	rm := r.inst()
+	k = r.reuse(k)
+	same := guardInput(k)
 	h, ok := hashOf(k)
 	if !ok {
-		r.emit("xhash", k.routeRec("xhash"), 0, panicIdx, "panic in XXHash")
+		r.emit("xhash", k.routeRec("xhash"), 0, panicIdx, true, "panic in XXHash")
 		return
 	}
 	i, note := index(func() int { return rm.XHashIndex(k.v) })
-	r.emit("xhash", k.routeRec("xhash"), h, i, note)
+	r.emit("xhash", k.routeRec("xhash"), h, i, same(), note)
 }
 
 // boundary-biased 64-bit patterns for n shards
@@ -257,15 +378,15 @@ func randBytes(rng *rand.Rand, n int) []byte {
 }
 
 func routeTrace(w *tr.W, rng *rand.Rand, n, nrand int, src string) int {
-	var rm *remap.ReMap
-	if src == "default" {
-		rm = remap.NewReMap()
+	rm, numbs, cnote := newReMap(n) // n = 0: no option
+	if n == 0 {
 		n = int(remap.DefaultPrime)
-	} else {
-		rm = remap.NewReMap(remap.WithPrime(uint64(n)))
 	}
 	r := &router{w: w, n: n, rm: rm, rng: rng}
-	w.Emit(tr.E{"ev": "reset", "kind": "route", "threads": 1, "shards": n, "numbs": clampIdx(int(rm.Numbs())), "src": src})
+	w.Emit(tr.E{"ev": "reset", "kind": "route", "threads": 1, "shards": n, "numbs": numbs, "src": src, "note": cnote})
+	if rm == nil {
+		return 0
+	}
 
 	type job func()
 	var jobs []job
@@ -423,30 +544,99 @@ var variants = []string{"single", "wide", "widex", "lru", "lrux", "tiny", "tinyx
 
 func isX(variant string) bool { return variant == "widex" || variant == "lrux" || variant == "tinyx" }
 
-func newStore(variant string, n int) store {
-	o := remap.WithPrime(uint64(n))
-	switch variant {
-	case "single":
-		return mapStore{cache.NewSingleMap()}
-	case "wide":
-		return mapStore{cache.NewWideMap(o)}
-	case "widex":
-		return mapStore{cache.NewWideXHashMap(o)}
-	case "lru":
-		return lruStore{cache.NeWideLRUCache(farCap, o)}
-	case "lrux":
-		return lruStore{cache.NewWideXHashLRUCache(farCap, o)}
-	case "tiny":
-		return tinyStore{tiny.NeWideLRU(farCap, o)}
-	case "tinyx":
-		return tinyStore{tiny.NewWideXHashLRU(farCap, o)}
+// conf is one configuration of a container: every constructor argument is a dimension.
+type conf struct {
+	variant string
+	n       int   // shard count; 0 = no remap option at all (the default prime)
+	capa    int64 // LRU facades: total capacity
+}
+
+func (c conf) shards() int {
+	if c.n == 0 {
+		return int(remap.DefaultPrime)
 	}
-	tr.Fatal("variant %q", variant)
-	return nil
+	return c.n
+}
+
+// capTag names the capacity in the trace (TLC cannot hold the big ones)
+func (c conf) capTag() string {
+	switch {
+	case c.variant == "single" || c.variant == "wide" || c.variant == "widex":
+		return "none"
+	case c.capa == farCap:
+		return "far"
+	case c.capa == math.MaxInt64:
+		return "maxint64"
+	case c.capa == math.MaxInt64-1:
+		return "maxint64-1"
+	}
+	return fmt.Sprint(c.capa)
+}
+
+// room: how many distinct keys a history may use so that no shard can ever be full, wherever the keys
+// are routed: the wide LRUs give every shard capacity/shards + 1 (documented in their constructors;
+// the same figure C04 holds them to), entries count 1 each.
+func (c conf) room() int64 {
+	if c.capTag() == "none" {
+		return math.MaxInt32
+	}
+	r := c.capa / int64(c.shards())
+	if r < math.MaxInt32 {
+		r++
+	}
+	return r
+}
+
+func (c conf) reset(kind, src string, threads, scheme int) tr.E {
+	return tr.E{"ev": "reset", "kind": kind, "threads": threads, "variant": c.variant, "shards": c.shards(),
+		"numbs": c.shards(), "defaultopt": c.n == 0, "cap": c.capTag(), "scheme": scheme, "src": src}
+}
+
+// newStoreC builds the container; a panic in a constructor is an observation (nil store + note).
+func newStoreC(c conf) (s store, note string) {
+	defer func() {
+		if p := recover(); p != nil {
+			s, note = nil, fmt.Sprintf("panic in constructor: %v", p)
+		}
+	}()
+	var opts []remap.Option
+	if c.n != 0 {
+		opts = append(opts, remap.WithPrime(uint64(c.n)))
+	}
+	switch c.variant {
+	case "single":
+		return mapStore{cache.NewSingleMap()}, ""
+	case "wide":
+		return mapStore{cache.NewWideMap(opts...)}, ""
+	case "widex":
+		return mapStore{cache.NewWideXHashMap(opts...)}, ""
+	case "lru":
+		return lruStore{cache.NeWideLRUCache(c.capa, opts...)}, ""
+	case "lrux":
+		return lruStore{cache.NewWideXHashLRUCache(c.capa, opts...)}, ""
+	case "tiny":
+		return tinyStore{tiny.NeWideLRU(c.capa, opts...)}, ""
+	case "tinyx":
+		return tinyStore{tiny.NewWideXHashLRU(c.capa, opts...)}, ""
+	}
+	tr.Fatal("variant %q", c.variant)
+	return nil, ""
+}
+
+// open emits the reset event of a history and builds its container; when the constructor panics the
+// trace gets a `panic` event (which no spec action explains) and the history is over.
+func open(w *tr.W, c conf, kind, src string, threads, scheme int) store {
+	w.Emit(c.reset(kind, src, threads, scheme))
+	s, note := newStoreC(c)
+	if s == nil {
+		w.Emit(tr.E{"ev": "panic", "where": "constructor", "note": note})
+	}
+	return s
 }
 
 // one call; a panic becomes a reply no map gives (v = -1)
 func call(s store, op string, k key, v int, alt bool) (rec tr.E, r tr.E) {
+	tick()
 	a := tr.E{"op": op, "k": k.mapRec()}
 	defer func() {
 		if p := recover(); p != nil {
@@ -533,11 +723,20 @@ func schemeKey(scheme, j, n int, x bool) key {
 	return mkBoth(1, "1")
 }
 
-func runPlan(w *tr.W, src, variant string, n, scheme int, acts []act) {
-	s := newStore(variant, n)
-	w.Emit(tr.E{"ev": "reset", "kind": "map", "threads": 1, "variant": variant, "shards": n, "numbs": n, "scheme": scheme, "src": src})
+func runPlan(w *tr.W, src string, c conf, scheme int, acts []act) {
+	s := open(w, c, "map", src, 1, scheme)
+	if s == nil {
+		return
+	}
+	room := c.room()
 	for i, a := range acts {
-		k := schemeKey(scheme, a.K, n, isX(variant))
+		// a plan uses abstract keys 1..6; under a small capacity they are folded onto as many keys
+		// as are certain to fit
+		j := a.K
+		if int64(j) > room {
+			j = 1 + (j-1)%int(room)
+		}
+		k := schemeKey(scheme, j, c.shards(), isX(c.variant))
 		rec, r := call(s, a.Op, k, a.V, i%2 == 1)
 		w.Emit(tr.E{"ev": "call", "a": rec, "r": r})
 	}
@@ -564,13 +763,25 @@ func randKey(rng *rand.Rand, n int, x bool) key {
 	return mkHit(p)
 }
 
-func runRandom(w *tr.W, rng *rand.Rand, variant string, n, nops int) {
-	s := newStore(variant, n)
-	pool := make([]key, 3+rng.Intn(30))
-	for i := range pool {
-		pool[i] = randKey(rng, n, isX(variant))
+func runRandom(w *tr.W, rng *rand.Rand, c conf, nops int) {
+	s := open(w, c, "map", "rand", 1, -1)
+	if s == nil {
+		return
 	}
-	w.Emit(tr.E{"ev": "reset", "kind": "map", "threads": 1, "variant": variant, "shards": n, "numbs": n, "scheme": -1, "src": "rand"})
+	np := int64(3 + rng.Intn(30))
+	if np > c.room() {
+		np = c.room()
+	}
+	pool := make([]key, 0, np)
+	seen := map[string]bool{}
+	for tries := 0; int64(len(pool)) < np && tries < 200; tries++ {
+		k := randKey(rng, c.shards(), isX(c.variant))
+		id := fmt.Sprint(k.t, k.id)
+		if !seen[id] { // distinct keys, so that the pool size is the number of entries at most
+			seen[id] = true
+			pool = append(pool, k)
+		}
+	}
 	for i := 0; i < nops; i++ {
 		k := pool[rng.Intn(len(pool))]
 		op := []string{"set", "set", "set", "get", "get", "get", "exist", "exist", "del"}[rng.Intn(9)]
@@ -598,13 +809,31 @@ func runRaces(w *tr.W, rng *rand.Rand, rounds, keep int) (int, int) {
 		if r%4 < 2 { // the maps proper get half of all rounds
 			variant = wide[r%2]
 		}
-		n := 1 + (r/2)%3
+		c := conf{variant, 1 + (r/2)%3, farCap}
 		threads := 2 + rng.Intn(3)
 		scheme := schemes[rng.Intn(len(schemes))]
 		nkeys := 2 + rng.Intn(3)
 		if nkeys < threads {
 			nkeys = threads
 		}
+		switch r % 16 {
+		case 5, 13:
+			// no remap option at all (73 shards); on the modulo variants keys that are multiples of
+			// the shard count still meet in one shard
+			c.n = 0
+			if !isX(variant) {
+				scheme = 1
+			}
+		case 7, 15:
+			// small total capacities, down to below the shard count: as many keys as surely fit
+			if c.capTag() != "none" {
+				c.capa = []int64{0, 1, int64(c.n) - 1, int64(c.n), 2*int64(c.n) + 1, math.MaxInt64 - 1}[rng.Intn(6)]
+			}
+		}
+		if int64(nkeys) > c.room() {
+			nkeys = int(c.room())
+		}
+		n := c.shards()
 		pool := make([]key, nkeys)
 		for j := range pool {
 			pool[j] = schemeKey(scheme, j+1, n, isX(variant))
@@ -629,7 +858,15 @@ func runRaces(w *tr.W, rng *rand.Rand, rounds, keep int) (int, int) {
 				progs[t] = append(progs[t], step{op, k, 100*(t+1) + i})
 			}
 		}
-		s := newStore(variant, n)
+		rst := c.reset("race", "race", threads, scheme)
+		s, cnote := newStoreC(c)
+		if s == nil {
+			w.Emit(rst)
+			w.Emit(tr.E{"ev": "panic", "where": "constructor", "note": cnote})
+			kept++
+			continue
+		}
+		pendReset.Store(rst)
 		type sev struct {
 			seq int64
 			e   tr.E
@@ -665,7 +902,8 @@ func runRaces(w *tr.W, rng *rand.Rand, rounds, keep int) (int, int) {
 			runtime.Gosched()
 		}
 		atomic.StoreInt32(&goFlag, 1)
-		wg.Wait()
+		wg.Wait() // a call that never returns is reported by the watchdog (reset + `stuck`)
+		pendReset.Store(tr.E(nil))
 		var all []sev
 		for _, p := range per {
 			all = append(all, p...)
@@ -686,8 +924,7 @@ func runRaces(w *tr.W, rng *rand.Rand, rounds, keep int) (int, int) {
 			continue
 		}
 		kept++
-		w.Emit(tr.E{"ev": "reset", "kind": "race", "threads": threads, "variant": variant, "shards": n, "numbs": n,
-			"scheme": scheme, "src": "race"})
+		w.Emit(rst)
 		for _, x := range all {
 			w.Emit(x.e)
 		}
@@ -699,6 +936,114 @@ func runRaces(w *tr.W, rng *rand.Rand, rounds, keep int) (int, int) {
 		}
 	}
 	return ran, kept
+}
+
+// Cold-start routing rounds: a FRESH ReMap is first touched by 2..4 goroutines released together by a
+// spin barrier; each asks the index of a handful of keys / hashes (the goroutines' lists overlap), all
+// through the same instance.  Afterwards every question is asked once more sequentially, on the same
+// instance and on another fresh one.  All answers are idx events of one trace: the routing contract
+// (range, one index per key, order-compatible partition) does not care who asked or when, so an index
+// that differs under contention or on first use is rejected like any other instability.  []byte keys
+// are shared between the goroutines (read-only use of one buffer) and checked to be unchanged.
+func routeRaces(w *tr.W, rng *rand.Rand, rounds int) int {
+	type q struct {
+		op string
+		k  key
+		x  uint64
+	}
+	nev := 0
+	for r := 0; r < rounds; r++ {
+		n := []int{1, 2, 3, 0, 73, 211, 4096}[r%7]
+		rm, numbs, cnote := newReMap(n)
+		if n == 0 {
+			n = int(remap.DefaultPrime)
+		}
+		w.Emit(tr.E{"ev": "reset", "kind": "routerace", "threads": 1, "shards": n, "numbs": numbs, "src": "cold", "note": cnote})
+		if rm == nil {
+			continue
+		}
+		ps := patterns(rng, n, 4)
+		var qs []q
+		for i := 0; i < 5+rng.Intn(6); i++ {
+			p := ps[rng.Intn(len(ps))]
+			switch rng.Intn(6) {
+			case 0:
+				qs = append(qs, q{"search", key{}, p})
+			case 1:
+				qs = append(qs, q{"simple", mkInt(rng.Intn(10), p), 0})
+			case 2:
+				qs = append(qs, q{"xhash", mkInt(rng.Intn(10), p), 0})
+			case 3:
+				qs = append(qs, q{[]string{"simple", "xhash"}[rng.Intn(2)], bytesKey(randBytes(rng, rng.Intn(20))), 0})
+			case 4:
+				qs = append(qs, q{[]string{"simple", "xhash"}[rng.Intn(2)], strKey(fmt.Sprintf("user:%d", rng.Intn(1000))), 0})
+			default:
+				qs = append(qs, q{"simple", mkBoth(p, "b"), 0})
+			}
+		}
+		ask := func(rm *remap.ReMap, x q) tr.E {
+			tick()
+			if x.op == "search" {
+				i, note := index(func() int { return rm.SearchIndex(x.x) })
+				return idxEvent("search", tr.E{"t": "hash", "b": tr.Limbs(x.x)}, x.x, i, true, note)
+			}
+			same := guardInput(x.k)
+			var i int
+			var note string
+			if x.op == "simple" {
+				i, note = index(func() int { return rm.SimpleIndex(x.k.v) })
+			} else {
+				i, note = index(func() int { return rm.XHashIndex(x.k.v) })
+			}
+			return idxEvent(x.op, x.k.routeRec(x.op), 0, i, same(), note)
+		}
+		threads := 2 + rng.Intn(3)
+		lists := make([][]q, threads)
+		for t := range lists {
+			for _, x := range qs {
+				if rng.Intn(3) > 0 {
+					lists[t] = append(lists[t], x)
+				}
+			}
+			rng.Shuffle(len(lists[t]), func(i, j int) { lists[t][i], lists[t][j] = lists[t][j], lists[t][i] })
+		}
+		out := make([][]tr.E, threads)
+		var goFlag, readyCnt int32
+		var wg sync.WaitGroup
+		for t := 0; t < threads; t++ {
+			wg.Add(1)
+			go func(t int) {
+				defer wg.Done()
+				atomic.AddInt32(&readyCnt, 1)
+				for atomic.LoadInt32(&goFlag) == 0 {
+				}
+				for _, x := range lists[t] {
+					out[t] = append(out[t], ask(rm, x))
+				}
+			}(t)
+		}
+		for atomic.LoadInt32(&readyCnt) < int32(threads) {
+			runtime.Gosched()
+		}
+		atomic.StoreInt32(&goFlag, 1)
+		wg.Wait()
+		for _, o := range out {
+			for _, e := range o {
+				w.Emit(e)
+				nev++
+			}
+		}
+		fresh, _, _ := newReMap(n)
+		for _, x := range qs {
+			w.Emit(ask(rm, x))
+			nev++
+			if fresh != nil {
+				w.Emit(ask(fresh, x))
+				nev++
+			}
+		}
+	}
+	return nev
 }
 
 func readPlan(path string) []act {
@@ -731,6 +1076,7 @@ func main() {
 	races := flag.String("races", "races.ndjson", "race-round traces")
 	nrace := flag.Int("nrace", 3000, "race rounds to run at most")
 	nracekeep := flag.Int("nracekeep", 1200, "race rounds (with real overlap) to keep at most")
+	nroutecold := flag.Int("nroutecold", 150, "cold-start routing rounds")
 	flag.Parse()
 	rng := rand.New(rand.NewSource(*seed))
 
@@ -741,15 +1087,29 @@ func main() {
 		counts = append(counts, 1+rng.Intn(5000))
 	}
 
-	w := tr.Create(*out)
+	go watchdog()
+
+	w := openTrace(*out)
 	nev := routeTrace(w, rng, 0, *nrand, "default")
 	for _, n := range counts {
 		nev += routeTrace(w, rng, n, *nrand, "prime")
 	}
+	ncold := routeRaces(w, rng, *nroutecold)
 	w.Close()
 
-	mw := tr.Create(*maps)
+	mw := openTrace(*maps)
 	small := []int{1, 2, 3, 4, 7, 64, 73, 211, 1000}
+	// capacities of the LRU facades: out of reach (most histories), and the edges of the range: 0, 1,
+	// around the shard count, the top of int64 (the histories then use only as many keys as surely fit)
+	capOf := func(i, n int) int64 {
+		switch i % 12 {
+		case 3:
+			return []int64{0, 1, int64(n) - 1, int64(n), int64(n) + 1, 3*int64(n) + 2}[(i/12)%6]
+		case 7:
+			return []int64{math.MaxInt64, math.MaxInt64 - 1, math.MaxInt64 / 2}[(i/12)%3]
+		}
+		return farCap
+	}
 	if *plans != "" {
 		files, _ := filepath.Glob(filepath.Join(*plans, "*.ndjson"))
 		sort.Strings(files)
@@ -762,26 +1122,53 @@ func main() {
 			if i%2 == 1 {
 				n = small[(i/2)%len(small)]
 			}
+			if i%9 == 4 {
+				n = 0 // constructors called without any option
+			}
 			base := filepath.Base(f)
 			third := []string{"single", "lru", "lrux", "tiny", "tinyx"}[i%5]
 			for j, v := range []string{"wide", "widex", third} {
-				runPlan(mw, "plan:"+base, v, n, (i+3*j)%nSchemes, p[1:])
+				c := conf{v, n, 0}
+				c.capa = capOf(i, c.shards())
+				runPlan(mw, "plan:"+base, c, (i+3*j)%nSchemes, p[1:])
 			}
 		}
 	}
 	for i := 0; i < *nhist; i++ {
 		v := variants[i%len(variants)]
 		n := counts[rng.Intn(len(counts))]
-		if n > 5000 {
+		if n > 5000 && i%50 != 7 { // a few containers with very many shards, the rest small
 			n = small[rng.Intn(len(small))]
 		}
-		runRandom(mw, rng, v, n, 10+rng.Intn(*maxops))
+		if i%11 == 5 {
+			n = 0
+		}
+		c := conf{v, n, 0}
+		c.capa = capOf(i/7, c.shards())
+		runRandom(mw, rng, c, 10+rng.Intn(*maxops))
+	}
+	// the edges of every constructor argument, each time: shard count 1, 2, none given; capacity 0, 1,
+	// around the shard count, top of int64
+	for _, v := range []string{"lru", "lrux", "tiny", "tinyx", "wide", "widex"} {
+		for _, n := range []int{1, 2, 0} {
+			c := conf{v, n, 0}
+			N := int64(c.shards())
+			for _, capa := range []int64{0, 1, N - 1, N, math.MaxInt64 - 1, math.MaxInt64} {
+				c.capa = capa
+				if c.capTag() == "none" && capa != 0 {
+					continue // the maps take no capacity: one history per shard count
+				}
+				runRandom(mw, rng, c, 8+rng.Intn(10))
+			}
+		}
 	}
 	mw.Close()
 
-	rw := tr.Create(*races)
+	rw := openTrace(*races)
 	ran, kept := runRaces(rw, rng, *nrace, *nracekeep)
 	rw.Close()
+	_ = nev
+	fmt.Printf("cold_route_events=%d ", ncold)
 	fmt.Printf("route_events=%d map_events=%d race_events=%d race_rounds=%d race_rounds_with_overlap=%d\n",
 		w.N(), mw.N(), rw.N(), ran, kept)
 }
